@@ -1,9 +1,87 @@
 import RegexVerif.Sexp
+import RegexVerif.Model.VM
 
 namespace RegexVerif.Driver
-open RegexVerif Sexp
+open RegexVerif Sexp VM Code
 
-/-- protocol lines with head `c10` (stub) -/
-def handleC10 (_args : List Sexp) : String := "(unimplemented)"
+/-- digest of the interpreter trace: rolling hash of all tuples, number of tuples, the first `k`
+    tuples (reversed, flat), largest depth of the backtracking stack -/
+structure C10Obs where
+  hash : Nat := 0
+  n : Nat := 0
+  first : List Int := []
+  maxTrack : Nat := 0
+  maxStack : Nat := 0
+
+def c10Mod : Nat := 1000000007
+def c10Mul : Nat := 1000003
+
+def c10Mix (h : Nat) (x : Int) : Nat := (h * c10Mul + (x % (c10Mod : Int)).toNat) % c10Mod
+
+def c10Observe (k : Nat) (o : C10Obs) (s : VMState) : C10Obs :=
+  let t : List Int := [s.codepos, operatorNum s.oper, s.textpos, s.track.length, s.stack.length, s.cap.crawl.length]
+  { hash := t.foldl c10Mix o.hash,
+    n := o.n + 1,
+    first := if o.n < k then t.reverse ++ o.first else o.first,
+    maxTrack := max o.maxTrack s.track.length,
+    maxStack := max o.maxStack s.stack.length }
+
+def c10Pairs (e : Sexp) : List (Nat × Nat) :=
+  match e with
+  | .list xs => xs.filterMap fun x =>
+      match x.nats? with
+      | some [a, b] => some (a, b)
+      | _ => none
+  | _ => []
+
+/-- `(c10 vm codes strings nsets capsize trackcount text setrows lower word ecmaword endzStrict ecma fuel k attempts)`:
+    `codes` the code array, `strings` the string table (lists of runes), `setrows` the pairs `(set rune)`
+    with `Sets[set].CharIn(rune)`, `lower` the pairs `(rune unicode.ToLower(rune))` that differ, `word` /
+    `ecmaword` the word characters among the runes of the text, `attempts` a list of `(pos textstart)`.
+    Answer: `(vm wf potOk (outcome steps maxtrack maxstack textpos hash (first k tuples) (counts) (arrays…))…)`,
+    one entry per attempt; outcome ∈ match | nomatch | fuel | fault-<kind>; capture arrays after `tidy`, cut to
+    the live entries. -/
+def handleC10 (args : List Sexp) : String :=
+  match args with
+  | [mode, codes, strings, nsets, capsize, trackcount, text, setrows, lower, word, ecmaword, endz, ecma, fuel, k, attempts] =>
+    match mode.sym?, codes.ints?, strings.list?, nsets.nat?, capsize.nat?, trackcount.nat?, text.nats?, word.nats?,
+          ecmaword.nats?, endz.bool?, ecma.bool?, fuel.nat?, k.nat?, attempts.list? with
+    | some "vm", some codes, some strs, some nsets, some capsize, some tc, some text, some word, some ecmaword,
+      some endz, some ecma, some fuel, some k, some atts =>
+      let p : Prog := { codes := codes.toArray, strings := (strs.map fun s => (s.nats?).getD []).toArray,
+                        nsets := nsets, trackcount := tc, capsize := capsize, caps := [], rtl := false }
+      let rows := c10Pairs setrows
+      let setTab : Array (List Nat) :=
+        (List.range nsets).toArray.map fun i => (rows.filter (fun r => r.1 == i)).map (·.2)
+      let low := c10Pairs lower
+      let envOf (ts : Int) : Env :=
+        { text := text.toArray, textstart := ts,
+          setMem := fun i r => (setTab.getD i []).contains r,
+          toLower := fun r => ((low.find? (fun e => e.1 == r)).map (·.2)).getD r,
+          wordChar := fun r => word.contains r, ecmaWordChar := fun r => ecmaword.contains r,
+          endzStrict := endz, ecma := ecma }
+      let one (a : Sexp) : Sexp :=
+        match a.ints? with
+        | some [pos, ts] =>
+          match init p pos with
+          | .error f => mk ("fault-" ++ f.name) []
+          | .ok s0 =>
+            let (fin, o, _) := runObs p (envOf ts) (c10Observe k) fuel s0 ({} : C10Obs) 0
+            let common (tp : Int) : List Sexp :=
+              [ofNat o.n, ofNat o.maxTrack, ofNat o.maxStack, ofInt tp, ofNat o.hash, ofInts o.first.reverse]
+            match fin with
+            | .fault f => mk ("fault-" ++ f.name) (common 0)
+            | .fuel s => mk "fuel" (common s.textpos)
+            | .done s =>
+              if matched s then
+                let b := MatchBuilder.tidy s.cap.m
+                mk "match" (common s.textpos ++ [ofNats b.matchcount] ++
+                  (List.range b.matchcount.length).map fun c =>
+                    ofInts ((MatchBuilder.arr b c).take (2 * MatchBuilder.cnt b c)))
+              else mk "nomatch" (common s.textpos)
+        | _ => mk "bad-attempt" []
+      toString (mk "vm" ([ofBool p.wf, ofBool (potOk p)] ++ atts.map one))
+    | _, _, _, _, _, _, _, _, _, _, _, _, _, _ => "(bad-op)"
+  | _ => "(bad-op)"
 
 end RegexVerif.Driver
